@@ -1,5 +1,6 @@
 import Tw.Model.GamenetTyping
 import Tw.Proofs.Gamenet
+import Tw.Proofs.GamenetCanon
 import Tw.Gen.Spec_tw05
 import Tw.Gen.Spec_tw06
 import Tw.Gen.Spec_tw07
@@ -80,6 +81,29 @@ theorem canonical_reencodes (ms : ML) (bs : List UInt8) (v : VL) (ws : List Warn
   rw [hd] at hd'
   cases hd'
   exact ⟨rfl, he⟩
+
+/-- *Exactly the described layout*: for every description without `optional` and without
+`int32_string` members, a byte string that decodes **without any warning** is the canonical
+encoding of the value it decodes to — `encode` writes back exactly the input.  (Together with
+`encode_decode_roundtrip`: "decodes without warning" ⇔ "is the encoding of an admitted value".)
+Both exclusions are necessary, see the two examples below. -/
+theorem clean_decode_is_canonical (ms : ML) (bs : List UInt8) (v : VL) (hno : noOptMs ms = true)
+    (hni : noIntStrMs ms = true) (hd : decodeMembers ms bs = .ok v []) : encStruct ms v = .ok bs :=
+  clean_decode_canonical ms bs v hno hni hd
+
+/-- `"+5"` and `"5"` both decode silently to 5 (`int32_string` uses `str::parse`) … -/
+example : decodeMembers (.cons .int32String .nil) [43, 53, 0] = .ok (.cons (.int 5) .nil) [] ∧
+    encStruct (.cons .int32String .nil) (.cons (.int 5) .nil) = .ok [53, 0] := by decide
+/-- … and an unreadable trailing optional member is silently absent. -/
+example : decodeMembers Tw.Gen.Spec_tw06.sys_info.members [48, 0, 120, 121] = .ok (.cons (.bytes [48]) (.cons .none .nil)) [] ∧
+    encStruct Tw.Gen.Spec_tw06.sys_info.members (.cons (.bytes [48]) (.cons .none .nil)) = .ok [48, 0] := by decide
+
+/-- How many of the shipped system / game / connless descriptions the hypotheses of
+`clean_decode_is_canonical` cover: (covered, all) per protocol. -/
+theorem tie_clean_canonical_coverage :
+    cleanCanonCount Tw.Gen.Spec_tw05.spec = (43, 43) ∧ cleanCanonCount Tw.Gen.Spec_tw06.spec = (52, 56) ∧
+    cleanCanonCount Tw.Gen.Spec_tw07.spec = (73, 74) ∧ cleanCanonCount Tw.Gen.Spec_ddnet.spec = (101, 107) := by
+  decide +kernel
 
 /-- *Whatever decodes can be written back* (the statement that failed before the fix of D24):
 for every description whose optional members are its trailing members, every byte string that
